@@ -226,3 +226,25 @@ def shrink(ctx, case):
 
 def known(ctx, c):
     return None
+
+
+# ---- T1X: the numerals of this property's models are tied to the current tree.  extract/consts2*.c + a source scan
+# rewrite lean/CoapVerif/Generated/Consts2.lean on every check; Props/C03Consts.lean proves `<model numeral> =
+# Generated.C2.<name>` (design/T1.md).  A changed macro / struct size / literal breaks one of these named obligations.
+LEAN_MODULES = list(LEAN_MODULES) + ["CoapVerif.Props.C03Consts"]
+REQUIRED_THEOREMS = list(REQUIRED_THEOREMS) + [
+    "optFilter_slots_matches_code",
+    "optFilter_capLong_matches_code",
+    "optFilter_capShort_matches_code",
+    "optFilter_longThreshold_matches_code",
+    "optFilter_op_class_matches_code",
+    "optFilter_mask_matches_code",
+    "optFilter_payloadMarker_matches_code",
+]
+TRUSTED_BASE = list(TRUSTED_BASE) + ["T1 extractors extract/consts2.c, consts2_net.c, consts2_opt.c and the source scan vlib/tables.py scan_consts2 (Generated/Consts2.lean)"]
+_t1x_prev_extract = globals().get("extract")
+
+
+def extract(ctx):
+    from vlib import tables
+    return (_t1x_prev_extract(ctx) if _t1x_prev_extract else []) + tables.extract_consts2()
